@@ -24,7 +24,7 @@ Record cap_snap := mkCS {
   cs_addl   : list nat;
   cs_owner  : list (nat * nat);      (* (tag, request id) for every request-owned key found in instance tag *)
   cs_active : list nat;              (* requests the script holds inside a rule at this point *)
-  cs_events : list (bool * nat);     (* (true, q): request q entered its first rule; (false, q): q's call returned *)
+  cs_events : list (bool * nat);     (* (true, q): request q entered its first rule; (false, q): the last rule q ran ended *)
   cs_done   : list nat               (* requests whose call has returned before this snapshot *)
 }.
 
